@@ -7,21 +7,22 @@ set -u
 ID=$1; NAME=${2:-$ID}; W=${SEEDBASE:-/tmp/seed}/$ID; OUT=/verif/seeded/$NAME
 cd "$W" || exit 2
 [ -f seed/patch.diff ] || { echo "no seed/patch.diff"; exit 2; }
-pristine() { git checkout -q -- . ; git clean -fdq -- src; }
-res() { cargo test --offline 2>&1 | grep -a -E "^test result" | head -1; }
+pristine() { git checkout -q -- . ; git clean -fdq -- src tests 2>/dev/null; }
+# sum over all test binaries (unit tests and integration tests under tests/)
+res() { cargo test --offline --no-fail-fast 2>&1 | grep -a -E "^test result" | awk '{p+=$4; f+=$6} END {printf "test result: %d passed; %d failed\n", p, f}'; }
 pristine
 git apply --check seed/patch.diff || { echo "PATCH DOES NOT APPLY"; exit 1; }
 git apply seed/patch.diff
 A=$(res); echo "change only:            $A"
 OK=yes
-echo "$A" | grep -q "41 passed; 0 failed" || OK=no
+echo "$A" | grep -q " 41 passed; 0 failed" || OK=no
 if [ -f seed/demo_test.diff ]; then
   git apply seed/demo_test.diff || { echo "demo test does not apply on top of the change"; OK=no; }
   B=$(res); echo "change + demo test:     $B"
-  echo "$B" | grep -qE "4[1-9] passed; [1-9][0-9]* failed" || OK=no
+  echo "$B" | grep -qE " 4[0-9] passed; [1-9][0-9]* failed" || OK=no
   pristine; git apply seed/demo_test.diff
   C=$(res); echo "demo test, no change:   $C"
-  echo "$C" | grep -qE "4[2-9] passed; 0 failed" || OK=no
+  echo "$C" | grep -qE " 4[2-9] passed; 0 failed" || OK=no
 else
   bash seed/demo.sh > /tmp/seed/$ID.with.log 2>&1; WITH=$?
   pristine
